@@ -23,7 +23,7 @@ EXTENDS Integers, Sequences, FiniteSets, TLC
 
 MaxDepth == 6
 
-St(kw, arg, subs) == [kw |-> kw, arg |-> arg, subs |-> subs, own |-> ""]
+St(kw, arg, subs) == [kw |-> kw, arg |-> arg, subs |-> subs, own |-> "", def |-> ""]
 Err(class) == St("!error", <<class>>, <<>>)
 Unj(why) == St("!unjudged", <<why>>, <<>>)
 
@@ -72,7 +72,7 @@ PrefixFor(f, m) ==
        IN IF im = <<>> THEN m ELSE Arg1(im[1], "prefix", m)
 
 \* ------------------------------------------------------------ Home
-WrapCase(n) == [kw |-> "case", arg |-> <<n.arg[1]>>, subs |-> <<n>>, own |-> n.own]
+WrapCase(n) == [kw |-> "case", arg |-> <<n.arg[1]>>, subs |-> <<n>>, own |-> n.own, def |-> n.def]
 WrapShort(nodes) == [i \in 1..Len(nodes) |-> IF nodes[i].kw \in DataKw \ {"choice"} THEN WrapCase(nodes[i]) ELSE nodes[i]]
 QualAbs(arg, f) == [i \in 1..Len(arg) |-> IF i % 2 = 1 THEN Resolve(f, arg[i]) ELSE arg[i]]
 QualRel(arg, f) == [i \in 1..Len(arg) |-> IF i % 2 = 1 /\ arg[i] # "" THEN Resolve(f, arg[i]) ELSE arg[i]]
@@ -83,7 +83,7 @@ Home(s, f, pk) ==
              [] s.kw = "refine" \/ (s.kw = "augment" /\ pk = "uses") -> QualRel(s.arg, f)
              [] OTHER -> s.arg
       subs0 == [i \in 1..Len(s.subs) |-> Home(s.subs[i], f, s.kw)]
-  IN [kw |-> s.kw, arg |-> a, subs |-> IF s.kw = "choice" THEN WrapShort(subs0) ELSE subs0, own |-> f.arg[1]]
+  IN [kw |-> s.kw, arg |-> a, subs |-> IF s.kw = "choice" THEN WrapShort(subs0) ELSE subs0, own |-> f.arg[1], def |-> f.arg[1]]
 HomeAll(M) == [i \in 1..Len(M) |-> Home(M[i], M[i], "")]
 
 \* ------------------------------------------------------------ groupings
@@ -456,7 +456,7 @@ BuildKids(stmts, cfg, st, keys, X) ==
   \* the reference an if-feature makes is checked whether or not the feature is supported; what else is wrong with a
   \* node that a feature removes is not judged
   \cup UNION {{m \in (BuildNode([stmts[j] EXCEPT !.subs = SelectSeq(@, LAMBDA c : c.kw \notin NodeKw)], cfg, st, FALSE, X)).children : m.kind \in {"!error", "!unjudged"}
-                                                            /\ m.name \in {"status-reference", "status of a reference between a module and its submodule"}}
+                                                            /\ m.name \in {"status-reference", "status-reference-in-grouping", "status of a reference between a module and its submodule"}}
              : j \in gone \ unk}
   \cup {UnjNode("a node that a feature removes is itself invalid") :
           i \in {j \in gone \ unk : NodeMarks(BuildNode([stmts[j] EXCEPT !.subs = SelectSeq(@, LAMBDA c : c.kw # "if-feature")], cfg, st, FALSE, X), "!error") # {}}}
@@ -482,9 +482,11 @@ BuildNode(s, cfg, st, isKey, X) ==
            (IF cs # <<>> /\ s.kw # "case" /\ ~cfg /\ c THEN {ErrNode("config-true-under-false")} ELSE {})
       \cup (IF cs # <<>> /\ s.kw = "case" THEN {ErrNode("config-on-case")} ELSE {})
       \cup (IF StRank(t) < StRank(st) THEN {ErrNode("status-stronger-than-parent")} ELSE {})
-      \cup {ErrNode("status-reference") : f \in {g \in refBad : FeatRec(X.FS, FeatId(g)).file = g.own}}
+      \* the rule is about the module the referencing statement is WRITTEN in (def), also when a uses of another
+      \* module brought the node here; such an error is the grouping's own and does not survive inlining
+      \cup {ErrNode(IF g.def = g.own THEN "status-reference" ELSE "status-reference-in-grouping") : g \in {h \in refBad : FeatRec(X.FS, FeatId(h)).file = h.def}}
       \cup {UnjNode("status of a reference between a module and its submodule") :
-              f \in {g \in refBad : FeatRec(X.FS, FeatId(g)).file # g.own /\ FeatId(g)[1] = ModOfFileName(X.M, g.own)}}
+              f \in {g \in refBad : FeatRec(X.FS, FeatId(g)).file # g.def /\ FeatId(g)[1] = ModOfFileName(X.M, g.def)}}
       \cup (IF s.kw \in {"leaf", "choice"} /\ mand /\ hasd THEN {ErrNode("mandatory-with-default")} ELSE {})
       \cup (IF s.kw \in {"list", "leaf-list"} /\ mx # "unbounded" /\ mn \in DOMAIN Digit /\ mx \in DOMAIN Digit /\ Digit[mn] > Digit[mx]
             THEN {ErrNode("min-above-max")} ELSE {})
@@ -579,9 +581,9 @@ Analyse(M, E) ==
   IN [verdict |-> IF unj # {} THEN "unjudged" ELSE IF errs # {} THEN "err" ELSE "ok",
       errs |-> errs, why |-> unj,
       schema |-> Clean(B),
-      inlineOk |-> MarksAll(T2, "!error") = {} /\ \A i \in 1..Len(T2) : ~TwoWhens(T2[i]),
+      inlineOk |-> MarksAll(T2, "!error") = {} /\ (\A i \in 1..Len(T2) : ~TwoWhens(T2[i])) /\ "status-reference-in-grouping" \notin errs,
       inline |-> WriteAll(T2),
-      editOk |-> MarksAll(ed, "!error") = {} /\ MarksAll(ed, "!unjudged") = {} /\ \A i \in 1..Len(ed) : ~TwoWhens(ed[i]),
+      editOk |-> MarksAll(ed, "!error") = {} /\ MarksAll(ed, "!unjudged") = {} /\ (\A i \in 1..Len(ed) : ~TwoWhens(ed[i])) /\ "status-reference-in-grouping" \notin errs,
       edit |-> WriteAll(ed)]
 Schema(M, E) == LET a == Analyse(M, E) IN [verdict |-> a.verdict, schema |-> IF a.verdict = "ok" THEN a.schema ELSE Blank("tree", "")]
 Inline(M) == Analyse(M, {}).inline
